@@ -144,6 +144,41 @@ theorem specPull_lock (src : Graph) (ow : Bool) (n : Nat) (r : RevId) (stags : T
     rw [specMerge_lock]
     exact h
 
+theorem specUpdate_owner (src : Graph) (ow : Bool) (n : Nat) (r : RevId) (st : St) :
+    (specUpdate src ow n r st).2.owner = st.owner := by
+  unfold specUpdate
+  split
+  · rfl
+  · split
+    · rfl
+    · simp only []
+      split
+      · rfl
+      · split
+        · rfl
+        · split <;> rfl
+
+theorem specMerge_owner (ow : Bool) (stags : Tags) (old : Nat × RevId) (s1 : St) :
+    (specMerge ow stags old s1).2.owner = s1.owner := by
+  unfold specMerge
+  split
+  · rfl
+  · simp only []
+    split <;> rfl
+
+theorem specPull_owner (src : Graph) (ow : Bool) (n : Nat) (r : RevId) (stags : Tags) (st : St) :
+    (specPull src ow n r stags st).2.owner = st.owner := by
+  unfold specPull
+  have h := specUpdate_owner src ow n r st
+  split
+  · rename_i e s1 heq
+    rw [heq] at h
+    exact h
+  · rename_i s1 heq
+    rw [heq] at h
+    rw [specMerge_owner]
+    exact h
+
 theorem specPull_nil_tags (src : Graph) (ow : Bool) (n : Nat) (r : RevId) (st : St) :
     (specPull src ow n r [] st).2.tags = st.tags := by
   unfold specPull
